@@ -2,6 +2,7 @@
 from __future__ import annotations
 
 import concur
+import connlife
 import core
 import h2x
 import propbase
@@ -10,8 +11,9 @@ import twin
 ID = "C01"
 MODULE = "HttpcoreModel.Props.C01"
 THEOREMS = [f"Httpcore.C01.{n}" for n in ("h1_exchange_open", "h1_no_desync", "delivers_content_length", "delivers_chunked", "no_desync", "h1_reuse_rule", "exclusive_use", "in_use_not_idle",
-                                           "unfinished_exchange_closes", "h2_own_stream_only", "h1_gate_atomic", "h2_broken_connection_not_offered")]
+                                           "unfinished_exchange_closes", "h2_own_stream_only", "h1_gate_atomic", "h2_broken_connection_not_offered")] + ["Httpcore.LifeProps.h1_available_means_complete", "Httpcore.LifeProps.h1_reuse_only_after_both_done", "Httpcore.LifeProps.h1_idle_only_via_response_closed", "Httpcore.LifeProps.h1_gate_exclusive", "Httpcore.LifeProps.h1_closed_is_final_partial", "Httpcore.LifeProps.h1_closed_revives", "Httpcore.LifeProps.h2_closed_is_final", "Httpcore.LifeProps.h2_unusable_not_available"]
 TRUSTED = [
+    'life-cycle of the connection objects (ConnLife.lean): gate, _response_closed, aclose and the status predicates are *translated* from http11.py / http2.py on every run (harness/lifetrans.py -> Gen.h1*/Gen.h2*); the remaining steps (stream opened / request backed out / GOAWAY / I/O failure recorded) are hand-written and tied by lock-step: instrumented sub-classes log every life-cycle event of the real objects and the Lean driver replays the log (harness/connlife.py, this run)',
     "Lean 4.33 kernel; axioms per theorem under coverage.theorems",
     "the byte-level reader model (H1Read/H1Obs, tied by C02's differential), the pool/connection transition system Sys (tied by C05/C06's sweeps) "
     "and the HTTP/2 routing model (tied by C12); the reuse test of _response_closed, is_available()==IDLE and the ACTIVE gate are regenerated "
@@ -40,7 +42,7 @@ H1_PROFILES = [
      "policies": ["default_policy", "long_policy"], "retries": 1},
 ]
 H2_PROFILE = dict(max_connections=1, init_max_streams=5, p_rst=0.1, p_cancel=0.2, abandon=True, segment="fine", downs=[0, 10, 3000], ups=[0, 5, 300],
-                  p_settings=0.1, allow_lower=False, p_ping=0.1)
+                  p_settings=0.1, allow_lower=False, p_ping=0.1, empty_data=True)
 
 
 def run(ctx, driver):
@@ -68,6 +70,23 @@ def run(ctx, driver):
                 rec.fail("C01:wrong-response", {"proto": "h2"}, {"runtime": rt, "cfg": cfg, "seed": seed, "detail": detail,
                                                                   "trace": [list(map(str, t)) for t in ex.trace][-60:],
                                                                   "how_to_replay": "h2x.run_one(runtime, cfg, seed)"})
+    # HTTP/2, callers cancelled at *any* suspension point (also while parked in a write) and SETTINGS frames arriving in the same read as
+    # other streams' DATA: whatever else such a cancellation costs (see DESIGN §10), a body that is delivered as complete is the one sent
+    for i in range((150 if ctx.quick else 4000) * (4 if ctx.broken else 1)):
+        cfg = dict(H2_PROFILE, callers=rng.randint(2, 5), coalesce=rng.random() < 0.7, p_settings=0.4, p_cancel=0.4, cancel_phase="any",
+                   segment=rng.choice(["whole", "coarse"]), max_steps=150)
+        seed = rng.randrange(1 << 30)
+        rt = ("asyncio", "trio")[i % 2]
+        ex = h2x.run_one(rt, cfg, seed)
+        rec.evals += 1
+        rec.distinct.add(("h2x-cancel-any", rt, tuple(map(str, ex.trace))))
+        rec.dist["h2-cancel-any:schedules"] += 1
+        rec.dist["h2-cancel-any:cancels"] += sum(1 for t in ex.trace if t[0] == "cancel")
+        for clause, detail in ex.violations:
+            if clause in ("C12:wrong-response", "C12:foreign-data", "C02:short-body-accepted"):
+                rec.fail("C01:wrong-response", {"proto": "h2", "how": "cancel-any"}, {"runtime": rt, "cfg": cfg, "seed": seed, "detail": detail, "clause": clause,
+                                                                                      "trace": [list(map(str, t)) for t in ex.trace][-60:],
+                                                                                      "how_to_replay": "h2x.run_one(runtime, cfg, seed)"})
     # direct and proxied, sequential histories with early closes and faults: every body read in full names its own request only
     for i in range(200 if ctx.quick else 5000):
         sc = twin.gen_scenario(rng)
@@ -91,6 +110,7 @@ def run(ctx, driver):
                     if not ok:
                         rec.fail("C01:wrong-response", {"proto": sc["kind"]}, {"scenario": repr(sc), "step": st["tok"], "got": repr(data)[:120],
                                                                                 "want": repr(full)[:120]})
+    connlife.run(rec, driver, ctx.rng, (100 if ctx.quick else 2000) * (4 if ctx.broken else 1), (300 if ctx.quick else 6000) * (4 if ctx.broken else 1), "C01")
     run_h2_histories(ctx, rec)
     run_threads(ctx, rec)
     return rec.finish("C01 token-echo exploration",
